@@ -24,7 +24,7 @@ def part(kind, content):
     return Rec(kind=kind, content=tuple(content))
 
 
-X_VARIANTS = [b"a", b"\x00", b"\xff"]
+X_VARIANTS = [b"a", b"\x00", b"\xff", b"\xc3\xa9"]   # the last one: a two-byte UTF-8 character (helper level only)
 S_VARIANTS = [b" ", b"\t"]
 FIELD_HDR = [b'Content-Disposition: form-', b'data; name="f\xc3\xa9"']
 FILE_HDR = [b'Content-Disposition: form-data; name="u1"; file', b'name="n\xc3\xa4me.bin"\r\nContent-', b'Type: application/x-t']
@@ -54,7 +54,7 @@ def conc_symbols(symbols, variant=0, bnd_map=None):
         elif s == "s":
             out.append(S_VARIANTS[variant % 2])
         elif s == "x":
-            out.append(X_VARIANTS[variant % 3])
+            out.append(X_VARIANTS[variant % 4])
         else:
             out.append(bm[s])
     return out
